@@ -6,7 +6,7 @@
      B. parse side  : m_customs is only touched by CS_Raw payloads   -> parse_customs, parse_callback_once
      C. emit side   : emitM factored as  front ; names ; producers ; dwarf ; customs
                       -> emit_customs, c12_roundtrip
-     D. gc          : gc_customs
+     D. gc_sweep          : gc_customs
      E. switches    : c14_name_switch / c14_producers_switch, generic in the one fact about
                       [set_customs_take] they need (Section TakeGeneric)
      F. producers   : producers_once / idempotent / others_kept
@@ -485,10 +485,10 @@ Proof.
   injection H as <-. reflexivity.
 Qed.
 
-(* ================================================================== D. gc *)
+(* ================================================================== D. gc_sweep *)
 (* 4 *)
-Theorem gc_customs : forall m m', gc m = Ok m' -> m_customs m' = m_customs m.
-Proof. intros m m'. unfold gc. repeat estep. intros [= <-]. reflexivity. Qed.
+Theorem gc_customs : forall m m', gc_sweep m = Ok m' -> m_customs m' = m_customs m.
+Proof. intros m m'. unfold gc_sweep. repeat estep. intros [= <-]. reflexivity. Qed.
 
 (* ================================================================== E. the two switches *)
 (* the emitters read neither [m_config] nor [m_customs] *)
